@@ -1361,6 +1361,29 @@ lib('torch.argmin', 'numpy.argmin')(lambda fr, x, *a, **k: _argminmax('min')(fr,
 lib('torch.argmax', 'numpy.argmax')(lambda fr, x, *a, **k: _argminmax('max')(fr, as_tn(fr, x), *a, **k))
 
 
+@lib('numpy.argsort', 'torch.argsort')
+def _argsort(fr, x, *a, **kw):
+    """argsort of a vector (ascending): an assumed relation - a permutation P of [0, N) with inverse R along
+    which the values are non-decreasing"""
+    x = as_tn(fr, x)
+    if x.rank != 1 or a or any(k not in ('axis', 'dim', 'kind', 'stable') for k in kw) or kw.get('descending'):
+        raise Unsupported("argsort beyond the ascending sort of a vector")
+    ctx = fr.ctx
+    N = x.shape[0]
+    s = x.snapshot()
+    nm = O.fresh_name('argsort')
+    P = z3.Function(nm + '.P', z3.IntSort(), z3.IntSort())
+    R = z3.Function(nm + '.R', z3.IntSort(), z3.IntSort())
+    k, t, a_, b_ = z3.Ints('%s_k %s_t %s_a %s_b' % (nm, nm, nm, nm))
+    Nz = O.to_z3(N)
+    ctx.assume(z3.ForAll([k], z3.Implies(z3.And(0 <= k, k < Nz), z3.And(0 <= P(k), P(k) < Nz, R(P(k)) == k)), patterns=[P(k)]))
+    ctx.assume(z3.ForAll([t], z3.Implies(z3.And(0 <= t, t < Nz), z3.And(0 <= R(t), R(t) < Nz, P(R(t)) == t)), patterns=[R(t)]))
+    ctx.assume(z3.ForAll([a_, b_], z3.Implies(z3.And(0 <= a_, a_ <= b_, b_ < Nz), O.to_z3(s(P(a_)) <= s(P(b_)))), patterns=[z3.MultiPattern(P(a_), P(b_))]))
+    ctx.trusted.add('axiom: argsort returns a permutation (with inverse) along which the values are non-decreasing')
+    ctx.ghost['last_argsort'] = {'P': P, 'R': R, 'N': N}
+    return Tn.fresh([N], lambda i: P(O.to_z3(i)), 'int', lib=x.lib)
+
+
 def _minmax_method(which):
     def f(fr, x, dim=None, axis=None, keepdim=False, keepdims=False, **kw):
         """max / min: an assumed relation - the result bounds every element and is attained"""
